@@ -115,12 +115,14 @@ func (s *Solver) restart() {
 	s.start()
 }
 
+type solverDied struct{ why string }
+
 func (s *Solver) send(txt string) {
 	if s.log != nil {
 		io.WriteString(s.log, txt)
 	}
 	if _, err := io.WriteString(s.in, txt); err != nil {
-		panic(engineError{"solver pipe: " + err.Error()})
+		panic(solverDied{"solver pipe: " + err.Error()})
 	}
 }
 
@@ -133,12 +135,12 @@ func (s *Solver) define(t *Term, sb *strings.Builder) {
 		if !s.declared[t.name] {
 			s.declared[t.name] = true
 			if s.intMode {
-				fmt.Fprintf(sb, "(declare-const |%s| %s)\n", t.name, intSort(t))
+				fmt.Fprintf(sb, "(declare-const %s %s)\n", t.ref(), intSort(t))
 				if t.kind == KBV {
-					fmt.Fprintf(sb, "(assert (and (<= 0 |%s|) (< |%s| %s)))\n", t.name, t.name, pow2(t.w))
+					fmt.Fprintf(sb, "(assert (and (<= 0 %s) (< %s %s)))\n", t.ref(), t.ref(), pow2(t.w))
 				}
 			} else {
-				fmt.Fprintf(sb, "(declare-const |%s| %s)\n", t.name, sortStr(t.kind, t.w))
+				fmt.Fprintf(sb, "(declare-const %s %s)\n", t.ref(), sortStr(t.kind, t.w))
 			}
 		}
 		return
@@ -208,7 +210,7 @@ func (s *Solver) readUntilMarker(marker string) []string {
 	for {
 		line, err := s.out.ReadString('\n')
 		if err != nil {
-			panic(engineError{fmt.Sprintf("solver %s died: %v (output so far: %v)", s.name, err, lines)})
+			panic(solverDied{fmt.Sprintf("%v (output so far: %v)", err, lines)})
 		}
 		line = strings.TrimSpace(line)
 		if strings.Trim(line, "\"") == marker {
@@ -224,7 +226,29 @@ func (s *Solver) readUntilMarker(marker string) []string {
 // "unsat" or "unknown" (timeouts and solver errors are unknown).  With
 // wantModel and sat, the values of all variables under the assertions are
 // returned as raw bits.
-func (s *Solver) Check(asserts []*Term, wantModel bool) (string, map[string]uint64) {
+func (s *Solver) Check(asserts []*Term, wantModel bool) (res string, model map[string]uint64) {
+	// a solver process that dies (out of memory, crash) costs this query --
+	// it is answered "unknown" -- and is replaced by a fresh process
+	defer func() {
+		if r := recover(); r != nil {
+			if d, ok := r.(solverDied); ok {
+				if s.Stats.Errors < 3 {
+					fmt.Fprintf(logw, "solver %s died (%s): query not decided, solver restarted\n", s.name, d.why)
+				}
+				s.Stats.Errors++
+				s.Stats.Queries++
+				s.Stats.Unknown++
+				s.restart()
+				res, model = "unknown", nil
+				return
+			}
+			panic(r)
+		}
+	}()
+	return s.check(asserts, wantModel)
+}
+
+func (s *Solver) check(asserts []*Term, wantModel bool) (string, map[string]uint64) {
 	if s.ndefs > 150000 {
 		s.restart()
 	}
@@ -330,7 +354,7 @@ func parseModel(txt string, model map[string]uint64) {
 		if t == "(" {
 			depth++
 			if depth == 2 && i+2 < len(toks) {
-				name := strings.Trim(toks[i+1], "|")
+				name := unSmtName(strings.Trim(toks[i+1], "|"))
 				j := i + 2
 				// value may be an atom or a list
 				if toks[j] == "(" {
